@@ -74,7 +74,8 @@ class C07(Prop):
             c["mask"] = [rng.random() < 0.4 for _ in range(C)]
             c["mval"] = rng.choice((0, 1, 0)) if nbits < 8 else rng.choice((0, 3, 7))
         if op == "chans":
-            c["chans"] = rng.sample(range(C), rng.randint(1, min(C, 3)))
+            # any order: ascending, descending, and orders whose sorting permutation is not its own inverse
+            c["chans"] = rng.sample(range(C), rng.randint(1, min(C, 6)))
             c["batch"] = rng.choice((1, 2, 200))
         if op == "bands":
             per = rng.choice([p for p in (2, 4, 8) if p <= C and (p * nbits) % 8 == 0] or [C])
@@ -112,6 +113,14 @@ class C07(Prop):
                 s2 = rng.choice([x for x in range(0, N - n + 1) if x != s])
                 c.update(N=N, splits=[N], s=s, n=n, none_n=False, g=rng.choice((2, 3, 5, n)),
                          pre=[[rng.choice(("stats", "stats", "bandpass", "stats_basic")), s2, n, rng.choice((1, 3, 64))]])
+                cases.append(c)
+        # channel lists given in a cyclically rotated order (sorting them is a permutation that is not an involution)
+        for _ in range(4 * k):
+            c = self._case(rng, "chans")
+            if c["C"] >= 3:
+                base = sorted(rng.sample(range(c["C"]), rng.randint(3, min(c["C"], 5))))
+                r = rng.randint(1, len(base) - 1)
+                c["chans"] = base[r:] + base[:r]
                 cases.append(c)
         # decimation by a product that is not a power of two, on data whose group means are exact integers
         for _ in range(6 * k):
